@@ -34,7 +34,8 @@ CALLS = [(r'^find_if\|', 'nv_find_if_entry({0}, {1}, &type_id)'),
          (r'^operator==\|.*__normal_iterator<const std::pair<', '({0} == {1})'), (r'^operator!=\|.*__normal_iterator<const std::pair<', '({0} != {1})'),
          (r'^operator\+\+\|.*__normal_iterator<const std::pair<', '(++{0})'), (r'^operator\*\|.*__normal_iterator<const std::pair<', '(*{0})'),
          (r'^operator->\|.*__normal_iterator<const std::pair<', '{0}'),
-         (r'^operator==\|.*basic_string_view', '({0}.id == {1}.id)'),
+         (r'^operator==\|.*basic_string_view', '({0}.id == {1}.id)'), (r'^operator!=\|.*basic_string_view', '({0}.id != {1}.id)'),
+         (r'^operator!=\|bool \(const basic_string<char', '({0}.id != {1}.id)'), (r'^operator==\|bool \(const basic_string<char', '({0}.id == {1}.id)'),
          (r'^operator==\|bool \(const basic_string<char.*__type_identity_t<basic_string_view', '({0}.id == {1}.id)'),
          (r'^ctor\|[^|]*basic_string_view<char[^|]*\|void \(const (std::)?basic_string_view<char[^|]*&\)', '{0}'),
          (r'^ctor\|[^|]*vector<std::(__cxx11::)?basic_string<char[^|]*\|void \(\)', 'nv_ids_new()'),
